@@ -343,11 +343,12 @@ def make_pattern():
 class _DS(object):
     no_redact = False
 
-    def __init__(self, no_obf):
+    def __init__(self, no_obf, no_redact=False):
         self.no_obfuscate = list(no_obf)
+        self.no_redact = no_redact
 
 
-def provider_write(cl, lines, no_obf):
+def provider_write(cl, lines, no_obf, no_redact=False):
     """DatasourceProvider.write under a HostContext (the path every spec takes before it is stored during host collection) with
     open() / ensure_path recording instead of touching the disk; returns the text that would be written (or None)"""
     written = []
@@ -365,7 +366,7 @@ def provider_write(cl, lines, no_obf):
     SF.open = lambda p, mode="r": F()
     SF.fs.ensure_path = lambda p, mode=0o755: None
     try:
-        prov = SF.DatasourceProvider(list(lines), "insights_commands/test", ds=_DS(no_obf), ctx=HostContext(), cleaner=cl)
+        prov = SF.DatasourceProvider(list(lines), "insights_commands/test", ds=_DS(no_obf, no_redact), ctx=HostContext(), cleaner=cl)
         try:
             prov.write("/out/data/insights_commands/test")
         except ContentException:
@@ -389,10 +390,12 @@ def make_collection():
     def fn(en):
         A = _ctx_alpha()
         which = en.choice("which", 3)
+        combo = en.choice("spec_flags", 3)          # plain / an unrelated exemption / exempt from pattern redaction only
+        other_exempt, no_redact = combo == 1, combo == 2
         pre = sstr.fresh_str_upto(en, "pre", 1, A)
         post = sstr.fresh_str_upto(en, "post", 1, A)
         if which == 0:
-            tok = cat(K.octet_text(en, "o0", K.OCTET_SHAPES[en.choice("sh0", 5)], True), ".", K.octet_text(en, "o1", "z", False), ".9.", K.octet_text(en, "o3", "nz", False))
+            tok = cat(K.octet_text(en, "o0", K.OCTET_SHAPES[en.choice("sh0", 5) if combo == 0 else 4], True), ".", K.octet_text(en, "o1", "z", False), ".9.", K.octet_text(en, "o3", "nz", False))
             v = K.ipv4_value(tok)
             en.assume(f_or(v < 0x0AE6E601, v > 0x0AE6E610))
         elif which == 1:
@@ -402,10 +405,11 @@ def make_collection():
         line = cat(pre, tok, post)
         exempt = en.flag("exempt")
         name = ["ip", "keyword", "hostname"][which]
-        case = lambda mv: {"kind": "collection", "line": mv.str(line), "tokens": [mv.str(tok)], "which": name, "exempt": exempt}  # noqa
+        no_obf = ([name] if exempt else []) + (["mac"] if other_exempt else [])
+        case = lambda mv: {"kind": "collection", "line": mv.str(line), "tokens": [mv.str(tok)], "which": name, "exempt": exempt, "no_obfuscate": no_obf, "no_redact": no_redact}  # noqa
         en.note_sample(case)
         cl = K.make_cleaner(K.Cfg(hostname=True, mac=False), keywords=KEYWORDS)
-        text = provider_write(cl, ["harmless first line", line], [name] if exempt else [])
+        text = provider_write(cl, ["harmless first line", line], no_obf, no_redact)
         en.must_hold(text is not None, "stored-content-cleaned", case, detail="nothing was written")
         if text is None:
             return
@@ -508,7 +512,7 @@ def obligations(tier):
                    bounds={"plain": PLAIN_PATTERNS, "regex": REGEX_PATTERNS, "context": "0-1 char on each side unless anchored"}, stubs=K.STUBS, outside=outside,
                    encoded=enc[9:], budget_s=600 if thorough else 100, replay="clean", check_sample=True),
         Obligation("O8-collection", make_collection(), ["stored-content-cleaned"], desc="DatasourceProvider.write under a HostContext: what is stored has been cleaned (or is untouched for an exempted spec)",
-                   bounds={"tokens": "IPv4 (first octet every shape) / keyword / system fqdn", "context": "0-1 char on each side", "exemption": "on / off"},
+                   bounds={"tokens": "IPv4 (first octet every shape) / keyword / system fqdn", "context": "0-1 char on each side", "exemption": "on / off, plus an unrelated exemption on / off", "no_redact": "on / off"},
                    stubs=K.STUBS + ["open() / fs.ensure_path of spec_factory record instead of touching the disk; str.encode carried through"], outside=outside,
                    encoded=[SF.ContentProvider._clean_content, SF.ContentProvider.write], budget_s=600 if thorough else 150, replay="clean", check_sample=True),
         Obligation("O7-exemptions", make_exempt(), ["exemption-exact"], desc="no_obfuscate switches exactly the named obfuscator off", bounds={"obfuscators": 5},
@@ -587,7 +591,7 @@ def _native(case):
             bad.append("not every secret masked: %r -> %r" % (case["line"], o))
     elif kind == "collection":
         cl = K.make_cleaner(K.Cfg(hostname=True, mac=False), keywords=KEYWORDS)
-        text = provider_write(cl, ["harmless first line", case["line"]], [case["which"]] if case["exempt"] else [])
+        text = provider_write(cl, ["harmless first line", case["line"]], case.get("no_obfuscate", [case["which"]] if case["exempt"] else []), case.get("no_redact", False))
         tok = case["tokens"][0]
         if text is None:
             bad.append("nothing was written")
